@@ -195,7 +195,7 @@ def pool_tie(ctx, work):
     scripts = []
     for kind in ('base', 'sqliteFile', 'sqliteMemory'):
         for s in FIXED: scripts.append((kind, s))
-        for _ in range(ctx.scale(25, 400)): scripts.append((kind, random_script(rng, 14)))
+        for _ in range(ctx.scale(9, 150)): scripts.append((kind, random_script(rng, 14)))
     outs = ctx.driver('C36', [{'op': 'run', 'kind': k, 'events': s} for k, s in scripts])
     for i, ((kind, script), out) in enumerate(zip(scripts, outs)):
         if 'driver_error' in out:
@@ -393,7 +393,7 @@ def run(ctx):
         model_witness(ctx)
         pool_tie(ctx, work)
         n = 0
-        for rep in range(ctx.scale(1, 5)):
+        for rep in range(ctx.scale(1, 4)):
             for point in ('idle', 'pooled', 'open'):
                 for mode in ('sessions-only', 'disconnect-first'):
                     if point == 'open' and mode == 'disconnect-first': continue     # db.disconnect() is refused inside db_session
